@@ -231,8 +231,31 @@ class PosInterp:
             return self.call_function(f, args, kwargs)
         if isinstance(f, ClassRef):
             return self.instantiate(f.name, args, kwargs, node)
+        if isinstance(f, _Lambda):
+            a = f.node.args
+            names = [x.arg for x in [*a.posonlyargs, *a.args]]
+            if len(names) != len(args) or kwargs or a.vararg or a.kwarg:
+                raise self.err(node, 'lambda call')
+            en = dict(f.env)
+            en.update(zip(names, args))
+            return self.expr(f.node.body, en)
         if isinstance(f, Builtin):
             n = f.name
+            if n == 'itertools.count':
+                return _Counter(args[0] if args else 0)
+            if n == 'next' and args and isinstance(args[0], _Counter):
+                args[0].n += 1
+                return args[0].n - 1
+            if n == 'itertools.groupby':
+                key = kwargs.get('key') if 'key' in kwargs else (args[1] if len(args) > 1 else None)
+                groups: list = []
+                for x in self.iter_of(args[0], node):
+                    k = self.call_value(key, [x], {}, node) if key is not None else x
+                    if groups and groups[-1][0] == k:
+                        groups[-1][1].append(x)
+                    else:
+                        groups.append((k, [x]))
+                return groups
             if n == 'len':
                 if isinstance(args[0], (list, tuple)):
                     return len(args[0])
@@ -291,7 +314,11 @@ class PosInterp:
             if n == 'id':
                 return id(args[0])
             if n == 'sorted':
-                return sorted(self.iter_of(args[0], node), **{k: v for k, v in kwargs.items() if k == 'reverse'})
+                items_ = self.iter_of(args[0], node)
+                if 'key' in kwargs and kwargs['key'] is not None:
+                    kf = kwargs['key']
+                    return sorted(items_, key=lambda x: self.call_value(kf, [x], {}, node), reverse=bool(kwargs.get('reverse', False)))
+                return sorted(items_, **{k: v for k, v in kwargs.items() if k == 'reverse'})
             if n == 'isinstance':
                 v, c = args
                 if isinstance(c, ClassRef):
@@ -456,6 +483,9 @@ class PosInterp:
                     raise self.err(t, 'slice assignment')
                 base[lo:hi] = list(v)
                 return
+            if isinstance(base, dict) and not isinstance(t.slice, ast.Slice):
+                base[self.expr(t.slice, env)] = v
+                return
             raise self.err(t, 'subscript assignment')
         else:
             raise self.err(t, 'assignment target')
@@ -539,7 +569,7 @@ class PosInterp:
                     return self.expr(st.value, {})          # module constant (_LOAD_FACTOR and friends)
             raise self.err(e, 'name')
         if isinstance(e, ast.Attribute):
-            if norm(e) in ('copy.copy', 'itertools.accumulate', 'itertools.chain'):
+            if norm(e) in ('copy.copy', 'itertools.accumulate', 'itertools.chain', 'itertools.count', 'itertools.groupby'):
                 return Builtin(norm(e))
             base = self.expr(e.value, env)
             if isinstance(base, Obj):
@@ -553,7 +583,7 @@ class PosInterp:
                 m = self.method(base.name, e.attr)
                 if m is not None:
                     return Bound(base, m) if m.kind == 'classmethod' else m
-            if isinstance(base, list) and e.attr in ('append', 'extend', 'pop'):
+            if isinstance(base, list) and e.attr in ('append', 'extend', 'pop', 'reverse', 'insert', 'clear', 'copy', 'index', 'remove'):
                 return _ListAppend(base, e.attr)
             if isinstance(base, dict) and e.attr in ('get', 'items', 'keys', 'values', 'pop', 'setdefault'):
                 return _DictMethod(base, e.attr)
@@ -571,6 +601,13 @@ class PosInterp:
             if isinstance(base, (list, tuple)) and isinstance(i, int):
                 if not -len(base) <= i < len(base):
                     raise Raised(f'IndexError: {norm(e)} with index {i} on a sequence of {len(base)}')
+                return base[i]
+            if isinstance(base, dict):
+                try:
+                    if i not in base:
+                        raise Raised(f'KeyError: {norm(e)}')
+                except TypeError:
+                    raise self.err(e, 'unhashable dict key')
                 return base[i]
             raise self.err(e, 'subscript')
         if isinstance(e, ast.BinOp):
@@ -600,6 +637,8 @@ class PosInterp:
                     return False
                 left = right
             return True
+        if isinstance(e, ast.Lambda):
+            return _Lambda(e, env)
         if isinstance(e, ast.IfExp):
             return self.expr(e.body if self.truth(self.expr(e.test, env), e.test) else e.orelse, env)
         if isinstance(e, ast.Yield):
@@ -664,6 +703,25 @@ class PosInterp:
                     f.lst.append(args[0])
                 elif f.how == 'pop':
                     return f.lst.pop(*args)
+                elif f.how == 'reverse':
+                    f.lst.reverse()
+                elif f.how == 'insert':
+                    f.lst.insert(args[0], args[1])
+                elif f.how == 'clear':
+                    f.lst.clear()
+                elif f.how == 'copy':
+                    return list(f.lst)
+                elif f.how == 'index':
+                    for i_, x_ in enumerate(f.lst):
+                        if x_ is args[0] or (not isinstance(x_, Obj) and x_ == args[0]):
+                            return i_
+                    raise Raised('ValueError')
+                elif f.how == 'remove':
+                    for i_, x_ in enumerate(f.lst):
+                        if x_ is args[0] or (not isinstance(x_, Obj) and x_ == args[0]):
+                            del f.lst[i_]
+                            return None
+                    raise Raised('ValueError')
                 else:
                     f.lst.extend(list(args[0]))
                 return None
@@ -671,6 +729,17 @@ class PosInterp:
                 return self.call_function(f.fn, [f.recv] + args, kwargs)
             return self.call_value(f, args, kwargs, e)
         raise self.err(e, 'expression')
+
+
+class _Lambda:
+    def __init__(self, node: ast.Lambda, env: dict) -> None:
+        self.node, self.env = node, env
+
+
+class _Counter:
+    """itertools.count()"""
+    def __init__(self, start: int = 0) -> None:
+        self.n = start
 
 
 class _DictMethod:
@@ -1119,6 +1188,9 @@ def rule_nav_sem(ctx: RuleContext, ts: TS, rid: str, positions: bool = False) ->
             return it.call_function(fn, [store, *args], {}), None, it
         except Raised as ex:
             return None, str(ex), it
+        except (IndexError, KeyError) as ex:
+            # the interpreted code indexed a list / dict out of range (a store left inconsistent by an earlier step of the history)
+            return None, f'{type(ex).__name__} in the interpreted code', it
 
     def note(fn: str, msg: str) -> None:
         problems.setdefault(fn, msg)
